@@ -5,6 +5,7 @@ import (
 	"go/types"
 	"net/textproto"
 	"sort"
+	"strconv"
 	"strings"
 
 	"golang.org/x/tools/go/ssa"
@@ -585,6 +586,7 @@ func checkArity(p *an.Prog, r *an.Run) {
 			bad = append(bad, "the method is invoked without the argument count having been compared with the declared parameter count (reflect would panic)")
 		}
 	}
+	bad = append(bad, errPosGuard(p, mc)...)
 	r.Check(len(bad) == 0, "arity", an.FuncName(mc), mc.Pos(), "len(args) == len(ArgTypes) before the reflective call", "%s", strings.Join(bad, "; "))
 
 	// ---- declared parameters are required: the positional parser (borrowed from go-ethereum) treats a pointer-typed
@@ -1256,4 +1258,54 @@ func sameFieldLoad(a, b ssa.Value) bool {
 	fa, oka := stripLoad(a).(*ssa.FieldAddr)
 	fb, okb := stripLoad(b).(*ssa.FieldAddr)
 	return oka && okb && fa.Field == fb.Field && fa.X == fb.X
+}
+
+// errPosGuard: complaints about how Method.Call tests for the method's error result (shared by C16, C08, C03).
+func errPosGuard(p *an.Prog, mc *ssa.Function) []string {
+	var bad []string
+	// a method's error result is reported whenever it has one: the test on the recorded position of the error result is
+	// "ErrPos >= 0" (position 0 is the error of methods that return nothing else — vipnode_whitelist, vipnode_disconnect:
+	// with "> 0" their failures come back as successes)
+	nErrPos := 0
+	an.AllInstrs(mc, func(in ssa.Instruction) {
+		iff, ok := in.(*ssa.If)
+		if !ok {
+			return
+		}
+		rel, ok := an.NormCond(iff.Cond)
+		if !ok {
+			return
+		}
+		l, r0, op := rel.L, rel.R, rel.Op
+		if fv := an.FieldOf(stripLoad(r0)); fv != nil && fv.Name() == "ErrPos" {
+			l, r0 = r0, l
+			op = rel.Swap().Op
+		}
+		fv := an.FieldOf(stripLoad(l))
+		k, isK := an.ConstInt(r0)
+		if fv == nil || fv.Name() != "ErrPos" || !isK {
+			return
+		}
+		nErrPos++
+		okRel := (op == token.GEQ && k == 0) || (op == token.GTR && k == -1) || (op == token.NEQ && k == -1) || (op == token.LSS && k == 0) || (op == token.LEQ && k == -1) || (op == token.EQL && k == -1)
+		if !okRel {
+			bad = append(bad, "Method.Call tests the position of the error result with 'ErrPos "+op.String()+" "+strconv.FormatInt(k, 10)+"' ("+p.Pos(iff.Pos())+"): the error of a method whose only result is the error (position 0) is not reported — a failed vipnode_whitelist looks like an acknowledgement")
+		}
+	})
+	if nErrPos == 0 {
+		bad = append(bad, "Method.Call does not test whether the method has an error result")
+	}
+	return bad
+}
+
+// checkErrorResultReported: the reverse calls the pool relies on (whitelist, disconnect) are methods whose only result
+// is an error: Method.Call must report it.
+func checkErrorResultReported(p *an.Prog, r *an.Run) {
+	mc := p.Method("jsonrpc2", "Method", "Call")
+	if mc == nil {
+		r.Undec("error-result", "jsonrpc2.Method.Call", token.NoPos, "anchor not found")
+		return
+	}
+	bad := errPosGuard(p, mc)
+	r.Check(len(bad) == 0, "error-result", an.FuncName(mc), mc.Pos(), "a method's error result is reported whenever it has one", "%s", strings.Join(bad, "; "))
 }
